@@ -52,7 +52,7 @@ class BcWorld(World):
     ENGINE = "bc"
     ASSUMPTIONS = [
         "K and F are those the simulation assembled (their correctness is C01-C03/C09); the reference re-solves them densely",
-        "a dof constrained several times holds the sum of the entered values (documented convention of the elimination solver); with Lagrange conditions present only duplicate-free Dirichlet sets are generated",
+        "a dof constrained several times holds the sum of the entered values (documented convention of the elimination solver); duplicates are generated next to Lagrange conditions too",
         "iterative back ends are called with SciPy's default rtol=1e-5: residual and forward error bounds are scaled by it and by the measured condition number; runs with kappa > 1e9 are discarded",
     ]
     ACTORS = ["Elastic", "Elastic", "Thermal", "Beam", "HyperElastic"]
@@ -136,7 +136,22 @@ class BcWorld(World):
             for d in set(self.dir_dofs):
                 comps.setdefault(d % nd, set()).add(d // nd)
             return all(len(comps.get(c, ())) >= 2 for c in range(nd))
-        return len(set(self.dir_dofs)) >= (3 * nd if self.actor != "Beam" else nd)
+        if self.actor == "Beam":
+            # the members of a frame are separate bodies until a connection joins them: a solve is worth generating once
+            # one node is clamped and the members are connected, or once the joint itself (all its coincident nodes) is
+            # clamped (anything else is a mechanism whose solve the measured condition number would discard)
+            byn = {}
+            for d in set(self.dir_dofs):
+                byn.setdefault(d // nd, set()).add(d % nd)
+            clamped = {n for n, v in byn.items() if len(v) == nd}
+            if getattr(self, "conn", None) and clamped:
+                return True
+            joint = getattr(self, "_joint", None)
+            if joint is None:
+                with self.ctx.sut():
+                    joint = self._joint = {int(n) for n in np.asarray(self.sim.mesh.Nodes_Point(self.pts[1]), dtype=int)}
+            return bool(joint) and joint <= clamped
+        return len(set(self.dir_dofs)) >= 3 * nd
 
     def gen_op(self, rng, frng):
         w = {"dirichlet": 4, "load": 2.5, "bc_init": 0.4, "backend": 1.5, "lagrange": 0.8, "connection": 0, "solve": 4 if self._anchored() else 0}
